@@ -2,6 +2,7 @@ import JominiModel.Model.Encoding
 import JominiModel.Spec.Encoding
 import JominiModel.Generated.Tables
 import JominiModel.Proofs.Encoding
+import JominiModel.Proofs.DecodeBridge
 /-
 C12 — String decoding always yields valid UTF-8 equal to the reference mapping.
 Only property theorems live here; helper lemmas are in `Proofs/Encoding.lean` and
@@ -105,5 +106,33 @@ theorem C12_utf8_borrowed_sound (d b : Bytes) (h : decodeUtf8 d = .ok (.borrowed
 
 -- valid non-ASCII UTF-8 without escapes is borrowed too
 example : decodeUtf8 [0xc3, 0xa5] = .ok (.borrowed [0xc3, 0xa5]) := by decide +kernel
+
+/-! ### bridges: the string decoders other slices re-model locally are the C12 model
+
+Each theorem says: the C12 decoder does not panic and the local decoder returns exactly the
+bytes of its result — so every string value of the text deserializer, the JSON writer and
+the binary deserializer models inherits `C12_win1252` / `C12_utf8` / `C12_valid`.
+(Proved in `Proofs/DecodeBridge.lean`; restated here so that they are audited with C12.) -/
+
+/-- the code-page tables used by the other slices (measured `binDeWin1252High`, the literal
+tables of the text deserializer and JSON models) equal the measured `Tables.win1252`. -/
+theorem C12_bridge_tables : type_of% @DecodeBridge.tables := @DecodeBridge.tables
+
+/-- text deserializer model, Windows-1252: `TextDe.decode .w1252 d = (decodeWindows1252 d).bytes`. -/
+theorem C12_bridge_textde_w1252 : type_of% @DecodeBridge.textde_w1252 := @DecodeBridge.textde_w1252
+/-- text deserializer model, UTF-8: `TextDe.decode .utf8 d = (decodeUtf8 d).bytes`. -/
+theorem C12_bridge_textde_utf8 : type_of% @DecodeBridge.textde_utf8 := @DecodeBridge.textde_utf8
+/-- JSON model, Windows-1252. -/
+theorem C12_bridge_json_w1252 : type_of% @DecodeBridge.json_w1252 := @DecodeBridge.json_w1252
+/-- JSON model, UTF-8. -/
+theorem C12_bridge_json_utf8 : type_of% @DecodeBridge.json_utf8 := @DecodeBridge.json_utf8
+/-- binary deserializer model, Windows-1252 (through the measured `Tables.binDeWin1252High`). -/
+theorem C12_bridge_binde_w1252 : type_of% @DecodeBridge.binde_w1252 := @DecodeBridge.binde_w1252
+
+-- e.g. the text deserializer's value for "J\xe5 " under Windows-1252 is valid UTF-8
+example (d : Bytes) : Valid (TextDe.decode .w1252 d) := by
+  obtain ⟨c, h1, h2⟩ := C12_bridge_textde_w1252 d
+  obtain ⟨c', h1', hv⟩ := (C12_valid d).1
+  rw [h1] at h1'; cases h1'; rw [h2]; exact hv
 
 end Jomini.Props.C12
